@@ -6,6 +6,7 @@ use std::collections::HashMap;
 use vharness::*;
 
 mod fe_damage;
+mod fe_export;
 mod fe_grammar;
 mod fe_lexer;
 mod fe_session;
@@ -49,6 +50,7 @@ fn main() {
             run_cases(cases, max_fail, move |_t, c| fe_session::session2_case(c, stride, seed, dstride))
         }
         "soup" => fe_session::run_soup(cases, max_fail),
+        "export" => fe_export::run(cases, max_fail, &opts),
         "history" => run_cases(cases, max_fail, |_t, c| fe_session::history_case(c)),
         "static" => {
             let layouts: Vec<String> = opts
